@@ -457,6 +457,11 @@ def delThrough (root : Val) (par : PRef) (ni : Option Str) : PyM Val :=
       else .error .KeyError
   | some _ => .error .TypeError
 
+/-- the hidden-list part of `delete` (fix C03-e): an item `[0]` of a hidden list that was *found* is the single value
+itself; `found` is resolved again until the parent reported is a node of the structure -/
+def delPlace (fuel : Nat) (root : Val) (r : Res) : PyM Res :=
+  if isWrap r.parent && r.isFound then realPlace fuel root fuel r else .ok r
+
 def isEmptyDict : Val → Bool
   | .dict _ [] => true
   | _ => false
@@ -473,6 +478,9 @@ def deleteLoop (fuel : Nat) (toks : List Str) (recursively : Bool) : Val → Nat
     | .error e => (root, .error e)
     | .ok (root, r) =>
       if first || (recursively && isEmptyDict r.value) then
+        match delPlace fuel root r with
+        | .error e => (root, .error e)
+        | .ok r =>
         match delThrough root r.parent r.nameIdx with
         | .error e => (root, .error e)
         | .ok root => deleteLoop fuel toks recursively root k false
